@@ -220,6 +220,8 @@ var handWritten = []string{
 	"1nx", "1µx", "1µs5x", "1µs5n", "1ms5x", "1ms5nx", "1s5x", "1s5mx", "1s5m", "1m5x", "1m5mx", "1m5m", "1h5x", "1h5", "1h5h", "1m5", "1s5",
 	"@server(a:1nx) service x {}", "@server(a:1µs5x) service x {}", "@server(a:1ms5x) service x {}", "@server(a:1s5mx) service x {}",
 	"@server(a:1m5mx) service x {}", "@server(a:1h5x) service x {}", "@server(a:1h5m3s2ms1µs1ns) service x {}", "@server(a:1s5) service x {}",
+	// a word after a blank behind a path
+	"service x { @handler h get /a b }", "service x { @handler h get /3 map (R) }", "service x { @handler h get /a b-c/d (R) }", "service x { @handler h get /1 s }",
 	// a Go keyword in every name position of a member list
 	"type T { A, func string }", "type T { A, B, select int64 }", "type T {\n\tA, type string\n}", "type ( T { X { A, go int } } )",
 	"type T { func, A string }", "type T { A func }", "type T { A, B }", "type T { A,, B int }", "type T { A, 1 int }", "type T { A, *B int }",
